@@ -52,6 +52,7 @@ func GenFunc(prog *Prog, fn *ssa.Function, fc *FuncContract) *VC {
 		vc.assume(not(fmt.Sprintf("(= (p.obj %s) 0)", name)))
 		fr.freeVars = append(fr.freeVars, Val{T: name, Typ: fv.Type()})
 	}
+	fr.entrySt = st0.clone()
 	lk := func(name string) (Val, bool) { return vc.paramLookup(fr, name) }
 	ctx := &SpecCtx{vc: vc, lookup: lk, st: st0, oldSt: st0, oldLookup: lk, pkg: fn.Pkg.Pkg, fnName: fn.Name()}
 	var reqs []string
